@@ -14,7 +14,8 @@ def run(ctx):
     binary = ctx.go_build("c04")
     ctx.harness(binary, ["-plans", pdir, "-out", ctx.path("seq.ndjson"), "-conc", ctx.path("conc.ndjson"),
                          "-seed", ctx.seed, "-hist", ctx.q(200, 4000), "-nconc", ctx.q(60, 1500),
-                         "-nwide", ctx.q(40, 800), "-maxops", ctx.q(80, 200)])
+                         "-nwide", ctx.q(40, 800), "-maxops", ctx.q(80, 200)],
+                traces=[ctx.path("seq.ndjson"), ctx.path("conc.ndjson")])
     # 4. validate what the real code did
     seq = ctx.load_traces(ctx.path("seq.ndjson"))
     conc = ctx.load_traces(ctx.path("conc.ndjson"))
